@@ -51,6 +51,8 @@ def run(ctx):
             rule_pass(ctx, M, u)
             if u.container in ("array", "vec"):
                 joinlike.rule_zero(ctx, M, u, "C10.ZERO", ("Ready(None)",))
+        from . import common as _cm
+        ctx.require(_cm.rule_pin_utils(ctx, M, "C10.SEL") >= 1, "utils::pin helpers")
         n = joinlike.rule_ext(ctx, M, "stream::stream_ext::StreamExt", "chain", "chain", "C10.EXT")
         ctx.require(n >= 1, "StreamExt::chain")
         na = 1 if base(cfg) == "core" else 2
